@@ -104,6 +104,10 @@ let obu_str (i : obu_info) =
   Printf.sprintf "%s %s %s %s %s" (hex_of_n i.obu_ty) (s01 i.obu_ext) (nat_s i.obu_header_size)
     (hex_of_n i.obu_payload_size) (hex_of_n i.obu_total_size)
 
+let vres (r : vresult) : string =
+  let l xs = String.concat "," (List.map (fun x -> string_of_int (int_of_n x)) xs) in
+  Printf.sprintf "%s m%s e%s" (s01 r.vr_valid) (l r.vr_messages) (l r.vr_errors)
+
 let run_fn (name : string) (args : string list) : string =
   let d () = bytes_of_hex (List.nth args 0) in
   match name with
@@ -139,6 +143,33 @@ let run_fn (name : string) (args : string list) : string =
        | Vp9Key b -> "ok " ^ s01 b)
   | "is_valid_vp9_frame" -> s01 (is_valid_vp9_frame (d ()))
   | "tick" -> hex_of_n (tick (decode64 (n_of_hex (List.nth args 0))))
+  | "validate_video_config" ->
+      (match args with
+       | [c; w; h; f] -> vres (validate_video_config (vcodec c) (n_of_hex w) (n_of_hex h) (decode64 (n_of_hex f)))
+       | _ -> "bad-args")
+  | "validate_audio_config" ->
+      (match args with
+       | [c; r; ch] -> vres (validate_audio_config (acodec c) (n_of_hex r) (n_of_hex ch))
+       | _ -> "bad-args")
+  | "validate_video_frame" ->
+      (match args with
+       | [c; d; k] -> vres (validate_video_frame (vcodec c) (bytes_of_hex d) (b01 k))
+       | _ -> "bad-args")
+  | "validate_audio_frame" ->
+      (match args with
+       | [c; d] -> vres (validate_audio_frame (acodec c) (bytes_of_hex d))
+       | _ -> "bad-args")
+  | "validate_muxing_config" ->
+      (match args with
+       | [vc; w; h; f; vf; k; ac; r; ch; af] ->
+           let o g x = if x = "~" then None else Some (g x) in
+           vres (validate_muxing_config
+                   { vv_codec = o vcodec vc; vv_width = o n_of_hex w; vv_height = o n_of_hex h;
+                     vv_framerate = o (fun x -> decode64 (n_of_hex x)) f;
+                     vv_frame = o (fun x -> (bytes_of_hex x, b01 k)) vf }
+                   { av_codec = o acodec ac; av_rate = o n_of_hex r; av_channels = o n_of_hex ch;
+                     av_frame = o bytes_of_hex af })
+       | _ -> "bad-args")
   | _ -> "unknown-fn"
 
 (* ---------- case reader ---------- *)
